@@ -2450,3 +2450,111 @@ def tab9(ctx):
             r.report("TAB-9|as_modifiers|%s" % nm, fn_loc(b, (it or {}).get("ln") or lets[0].get("ln")), b.path,
                      "the entry for node %s is not a plain `Some(..)`: when it evaluates to `None` the node is left unconstrained and an IPA literal with modifiers (`t:[-long]`, `k:[+stress]`) also matches segments that carry that node (tʲ, tˤ, kʷ)" % nm)
     return r
+
+
+# ---------------------------------------------------------------- CLI-11: a piped tag still reads its own extra word files
+
+def _is_from_place(b, pl, depth=0):
+    """the place is `<config>.from`, directly or through a reference taken of it"""
+    from engine_flw2 import _single_def
+    if any(isinstance(p, dict) and p.get("n") == "from" and "ASCAConfig" in (p.get("of") or "") for p in pl.get("p") or []):
+        return True
+    if depth > 3:
+        return False
+    d = _single_def(b, pl.get("l"))
+    if d is None:
+        return False
+    if d.get("k") == "ref":
+        return _is_from_place(b, d["pl"], depth + 1)
+    if d.get("k") == "use" and d["op"].get("k") in ("copy", "move"):
+        return _is_from_place(b, d["op"]["pl"], depth + 1)
+    return False
+
+
+def cli11(ctx):
+    """`@child %parent ["extra"]`: the stage input is the parent's final words *plus* the tag's own word files. In
+    seq::get_words, when no `-w` file is given, the loop over `conf.words` is reached also for a tag that has a `%`
+    reference: evaluated on the CFG (local helpers that take the config expanded) with every test of `conf.from` that
+    follows the `words_path == None` edge forced to `Some`."""
+    import facts as F
+    r = RuleResult("CLI-11", "seq::get_words: without -w, the files named in `conf.words` are read whether or not the tag has a `%` reference (the iteration over conf.words does not sit behind a test of conf.from)", floor=1)
+    bn = ctx.bin
+    b0 = ctx.fn(bn, "asca_bin::cli::seq::get_words")
+    try:
+        b = F.inline_mir(bn, b0, lambda cb: cb.path.startswith("asca_bin::cli::seq::") and cb.path != b0.path and any("ASCAConfig" in (ty or "") for ty in (cb.param_tys or []))
+                         and not cb.path.endswith(("run_sequence", "handle_sequence", "get_words")), max_blocks=120)
+    except (KeyError, IndexError):
+        b = b0
+    cfg = b.cfg
+    names = b0.param_names or []
+    if "conf" not in names or "words_path" not in names:
+        raise AnchorMissing("CLI-11: get_words: parameters `conf` / `words_path` not found")
+    conf_l, wp_l = names.index("conf") + 1, names.index("words_path") + 1
+
+    def through(pl, root, field=None):
+        if pl.get("l") != root:
+            return False
+        return field is None or any(isinstance(p, dict) and p.get("n") == field for p in pl.get("p") or [])
+    # the `words_path` test and its None edge
+    none_edges = []
+    for bi, bl in enumerate(b.blocks):
+        for s_ in bl["s"]:
+            if s_["k"] == "assign" and s_["rv"].get("k") == "discr" and through(s_["rv"]["pl"], wp_l):
+                sw = bl["t"]
+                if sw.get("k") == "switch":
+                    vals = dict((v, tg) for v, tg in sw["vals"])
+                    e = vals.get(0, sw.get("otherwise") if 1 in vals else None)
+                    if e is not None:
+                        none_edges.append(e)
+    if not none_edges:
+        raise AnchorMissing("CLI-11: get_words: test of `words_path` not found")
+    # iteration over conf.words (also through the helper's own `conf` parameter after inlining: any ASCAConfig `.words`)
+    iters = set()
+    for i, t in b.calls():
+        d = (t["callee"].get("def") or "")
+        if d.endswith(("IntoIterator::into_iter", "slice::<impl [T]>::iter")) or (callee_path(t) or "").endswith("::iter"):
+            a = t["args"][0] if t["args"] else {}
+            l = a.get("pl", {}).get("l") if a.get("k") in ("copy", "move") else None
+            from engine_flw2 import _single_def
+            for _ in range(4):
+                dd = _single_def(b, l) if l is not None else None
+                if dd is None:
+                    break
+                if dd.get("k") == "ref" and any(isinstance(p, dict) and p.get("n") == "words" and "ASCAConfig" in (p.get("of") or "") for p in dd["pl"]["p"]):
+                    iters.add(i)
+                    break
+                if dd.get("k") == "use" and dd["op"].get("k") in ("copy", "move"):
+                    l = dd["op"]["pl"]["l"]
+                    continue
+                break
+    if not iters:
+        r.inst("get_words iterates over `conf.words`", fn_loc(b0), "report")
+        r.report("CLI-11|get_words|no-iteration", fn_loc(b0), b0.path, "get_words (with its config helpers expanded) never iterates over `conf.words`: the tag's own word files are not read")
+        return r
+    # tests of `.from` of a config: force the Some edge
+    forced = {}
+    for bi, bl in enumerate(b.blocks):
+        for s_ in bl["s"]:
+            if s_["k"] == "assign" and s_["rv"].get("k") == "discr" and _is_from_place(b, s_["rv"]["pl"]):
+                sw = bl["t"]
+                if sw.get("k") == "switch":
+                    vals = dict((v, tg) for v, tg in sw["vals"])
+                    e = vals.get(1, sw.get("otherwise") if 0 in vals else None)
+                    if e is not None:
+                        forced[bi] = e
+    ok = False
+    for e in none_edges:
+        seen, st = {e}, [e]
+        while st:
+            x = st.pop()
+            for y in ([forced[x]] if x in forced else cfg.succ[x]):
+                if y not in seen:
+                    seen.add(y)
+                    st.append(y)
+        if iters & seen:
+            ok = True
+    r.inst("get_words: with no -w file and a tag reference the loop over `conf.words` is still reached (%d tests of `.from` after the `words_path` test forced to Some)" % len(forced), fn_loc(b0), "ok" if ok else "report")
+    if not ok:
+        r.report("CLI-11|get_words|extra-words-behind-from-test", fn_loc(b0), b0.path,
+                 "for a tag with a parent reference the iteration over `conf.words` is unreachable: `@child <parent> [extra]` never reads extra.wsca -- the stage input is not 'final words of the parent plus the extra word files'")
+    return r
